@@ -10,6 +10,7 @@ import r17_determination
 import r18_indexspace
 import r19_paired
 import r20_trisym
+import r20b_gensym
 import r21_clones
 import r22_adjoint
 import r24_errdrop
@@ -37,6 +38,7 @@ import r45_positive
 import r46_trivial
 import r47_reshape
 import r48_boundary
+import r49_accumulator
 import r06_validate
 import r07_cache
 import r08_toporder
@@ -205,6 +207,18 @@ def r47(ctx, prop):
 
 def r48(ctx, prop):
     return r48_boundary.run(ctx.F())
+
+
+R20B_SCOPES = {"C01": ("feos_core::state",), "C02": ("feos_core::state",), "C06": ("state::critical_point",), "C08": ("feos::",),
+               "C09": ("feos::",), "C14": ("parameter", "from_segments", "from_records")}
+
+
+def r20b(ctx, prop):
+    return r20b_gensym.run(ctx.F(), R20B_SCOPES[prop])
+
+
+def r49(ctx, prop):
+    return r49_accumulator.run(ctx.F())
 
 
 def r43(ctx, prop):
@@ -443,21 +457,21 @@ def r12(ctx, prop):
 
 
 PROPERTY_RULES = {
-    "C08": [r10_wrapper, r11, r2, r20, r21, r25, r27, r37, r38, r40, r44],
-    "C09": [r12, r18, r20, r10_wrapper, r30, r38, r40],
-    "C02": [r3, r7, r39, r40, r1_sinks],
+    "C08": [r10_wrapper, r11, r2, r20, r21, r25, r27, r37, r38, r40, r44, r20b],
+    "C09": [r12, r18, r20, r10_wrapper, r30, r38, r40, r20b],
+    "C02": [r3, r7, r39, r40, r1_sinks, r20b],
     "C10": [r10_selector, r8, r1_idealgas, r3, r19, r25, r29, r10_selconst, r1_guard_idealgas, r44],
-    "C14": [r14, r13, r10_identifier, r21, r27, r28, r38, r40, r47],
+    "C14": [r14, r13, r10_identifier, r21, r27, r28, r38, r40, r47, r20b, r49],
     "C15": [r15],
     "C20": [r10_transport, r21, r25, r24, r34, r10_selconst, r41, r47],
-    "C01": [r1_all, r2, r7, r8, r4, r25, r24, r26, r28, r29, r39, r40, r44],
+    "C01": [r1_all, r2, r7, r8, r4, r25, r24, r26, r28, r29, r39, r40, r44, r20b],
     "C13": [r1_guard, r8, r21, r32, r36, r43],
     "C17": [r1_functional, r8, r22, r25, r21, r26, r28, r33, r40, r44, r47, r48],
     "C11": [r9, r7],
     "C03": [r6, r17, r4, r5, r25, r24, r26, r31, r40, r43, r44],
     "C04": [r4, r16, r25, r24, r26, r31, r10_selconst, r40, r46],
     "C05": [r4, r5, r16, r25, r24, r26, r31, r10_selconst, r39, r40, r43, r44, r46],
-    "C06": [r4, r1_all, r21, r25, r24, r26, r28, r31, r39, r40],
+    "C06": [r4, r1_all, r21, r25, r24, r26, r28, r31, r39, r40, r20b],
     "C07": [r5, r4, r25, r24, r26, r31, r10_selconst, r40, r43, r46],
     "C18": [r4, r16, r25, r24, r26, r35, r39, r40, r42, r44, r45],
 }
